@@ -11,6 +11,9 @@ CS = SR.CS
 
 
 def run(rep, prog, tier):
+    from .hidden import no_hidden_state
+    rep.rule('R12.state', 'no hidden state in the anchored modules: no function writes a module-level object, no caching decorator / cached property')
+    no_hidden_state(rep, 'R12.state', prog, ['Circuit/solution.py', 'Network/NodalAnalysis/state_space_model.py', 'SignalProcessing/state_space_model.py', 'SignalProcessing/one_sided_functions.py'])
     rep.rule('R12.space', 'inputs are fed in the model\'s published source order (= columns of B), states / outputs are multiplied with rows of the same layout (index-space typing of TransientSolution)')
     rep.rule('R12.wiring', 'model built at w=0 from the circuit\'s own C / L values; solver receives (A, B, I, 0), u^T, tin, zero state; each getter returns c_row_Q(id) @ x + d_row_Q(id) @ u for the same Q and id; StateSpace(A,B,C,D) and lsim(sys,u,t) argument order')
     rep.assume('NOT DECIDED: accuracy of lsim, KCL per sample, C dv/dt relations, settling behaviour')
